@@ -1,6 +1,7 @@
 (* Model of memmetrics/counter.go (RollingCounter) and memmetrics/ratio.go (RatioCounter), as the code
    is in /repo now.  One step = one exported call (Inc / Count / Reset / IncA / IncB / Ratio / Reset of
-   the ratio counter) under oxy's frozen clock, or a clock advance.
+   the ratio counter / Append of a freshly filled counter / Append of the counter's own Clone) under oxy's
+   frozen clock, or a clock advance.
 
    Time.  An instant is a Z: nanoseconds since the Unix epoch.  Go's zero time.Time{} (1 Jan of year 1,
    what NewCounter leaves in lastUpdated and what Reset stores there) is [zero_time] = -Z0 ns, with
@@ -78,6 +79,15 @@ Definition inc (r now v : Z) (c : counter) : counter := incBucketValue r now v (
 Definition reset (c : counter) : counter :=
   {| values := map (fun _ => 0) (values c); lastUpdated := zero_time; countedBuckets := 0; lastBucket := -1 |}.
 
+(* Clone(): c.cleanup() on the receiver, then a copy of resolution, values, lastBucket and lastUpdated (countedBuckets
+   is not copied).  Returns the receiver after its cleanup and the copy. *)
+Definition clone (r now : Z) (c : counter) : counter * counter :=
+  let c' := cleanup r now c in
+  (c', {| values := values c'; lastUpdated := lastUpdated c'; countedBuckets := 0; lastBucket := lastBucket c' |}).
+
+(* c.Append(o): c.Inc(int(o.Count())) -- o's own cleanup happens on o, which is discarded here *)
+Definition append (r now : Z) (c o : counter) : counter := inc r now (snd (count r now o)) c.
+
 (* RatioCounter.Ratio() = a/(a+b), 0 when a+b = 0 -- as an exact rational (the code divides float64s) *)
 Definition ratio_q (a b : Z) : Q := if a + b =? 0 then 0%Q else Qmake a (Z.to_pos (a + b)).
 (* IsReady(): r.a.countedBuckets + r.b.countedBuckets >= len(r.a.values) *)
@@ -86,12 +96,22 @@ Definition is_ready (a b : counter) : bool := len a <=? countedBuckets a + count
 (* ---- the component: one RollingCounter and one RatioCounter under the same clock ---- *)
 Inductive op :=
 | Inc (v : Z) | Count | Tick (d : Z) | Reset
-| IncA (v : Z) | IncB (v : Z) | Ratio | RReset.
+| IncA (v : Z) | IncB (v : Z) | Ratio | RReset
+| Append (v : Z)        (* other := NewCounter(same buckets, same resolution); other.Inc(v); c.Append(other) *)
+| AppendClone.          (* c.Append(c.Clone()) *)
 
 Record st := { now : Z; c0 : counter; ca : counter; cb : counter }.
 
 Definition init (n start : Z) : st :=
   {| now := start; c0 := new_counter n; ca := new_counter n; cb := new_counter n |}.
+
+(* the amount the two Append operations add to the counter in state s *)
+Definition appended (r : Z) (s : st) (o : op) : Z :=
+  match o with
+  | Append v => snd (count r (now s) (inc r (now s) v (new_counter (len (c0 s)))))
+  | AppendClone => snd (count r (now s) (snd (clone r (now s) (c0 s))))
+  | _ => 0
+  end.
 
 (* observables: Count -> [Count(); CountedBuckets()]
                 Ratio -> [numerator a; denominator a+b; IsReady()]   (Ratio() = numerator/denominator, 0 if denominator = 0)
@@ -109,6 +129,10 @@ Definition step (r : Z) (s : st) (o : op) : st * list Z :=
              let '(b', b) := count r (now s) (cb s) in
              ({| now := now s; c0 := c0 s; ca := a'; cb := b' |}, [a; a + b; zbool (is_ready a' b')])
   | RReset => ({| now := now s; c0 := c0 s; ca := reset (ca s); cb := reset (cb s) |}, [])
+  | Append v => ({| now := now s; c0 := append r (now s) (c0 s) (inc r (now s) v (new_counter (len (c0 s))));
+                    ca := ca s; cb := cb s |}, [])
+  | AppendClone => let '(c', o) := clone r (now s) (c0 s) in
+                   ({| now := now s; c0 := append r (now s) c' o; ca := ca s; cb := cb s |}, [])
   end.
 
 (* the value Ratio() returns in state s, as a rational *)
@@ -126,6 +150,8 @@ Definition decode_op (l : list Z) : op :=
   | [5; v] => IncB v
   | [6] => Ratio
   | [7] => RReset
+  | [8; v] => Append v
+  | [9] => AppendClone
   | _ => Tick 0
   end.
 
